@@ -54,19 +54,21 @@ pub trait FasterMinMax {
 
 #[allow(dead_code)]
 impl FasterMinMax for f32 {
+    // Like MINPS/MAXPS, return `rhs` when the comparison is false (NaN operand, +0.0 vs -0.0),
+    // so that the scalar fallback produces the same pixels as the SIMD backends.
     fn faster_min(self, rhs: f32) -> f32 {
-        if rhs < self {
-            rhs
-        } else {
+        if self < rhs {
             self
+        } else {
+            rhs
         }
     }
 
     fn faster_max(self, rhs: f32) -> f32 {
-        if self < rhs {
-            rhs
-        } else {
+        if self > rhs {
             self
+        } else {
+            rhs
         }
     }
 }
